@@ -653,6 +653,22 @@ class DefGen:
             T = fun(*(Ts + [R]))
             tstr = ty_str(T)
             lhs = " ".join([name] + parts)
+        elif r < 0.78 and r >= 0.73 and env:
+            # (2) a variable is a (name, type) pair: an occurrence on the rhs that has the NAME of an
+            # argument but, by an explicit annotation, ANOTHER type is a free variable that is not an
+            # argument (type inference leaves annotated occurrences alone)
+            kind = "retyped-arg"
+            n0, S0 = rng.choice(env)
+            tvT = ty_tvars(T)
+            S = rng.choice([B for B in [R, NAT, BOOL, NAT, BOOL] + [("list", S0), fun(S0, BOOL)] + self.bases
+                            if B != S0 and all(v in tvT for v in ty_tvars(B))])
+            occ = "(%s::%s)" % (n0, ty_str(S))
+            if S == R and rng.random() < 0.7:
+                rhs = rng.choice([occ, "(if %s = %s then %s else %s)" % (occ, rhs, rhs, occ), "(if %s then %s else %s)" % (self.term(BOOL, 1, env), occ, rhs)])
+            elif R == BOOL:
+                rhs = "(%s & (%s = %s))" % (rhs, occ, self.leaf(S, [])) if rng.random() < 0.5 else "((%s = %s) --> %s)" % (occ, self.leaf(S, []), rhs)
+            else:
+                rhs = "(if (%s = %s) then %s else %s)" % (occ, self.leaf(S, []), rhs, self.term(R, 1, env))
         elif r < 0.78:       # (2) a free / schematic variable on the rhs
             kind = "free-var"
             S = rng.choice([R, NAT, BOOL])
@@ -2091,6 +2107,8 @@ def corpus_items(ctx):
     """hand-written regression items: the defects of the pinned tree (must stay rejected) and a few
     library-style definitions (must stay accepted)"""
     fixed = [
+        ("corpus:retyped-arg", {"ty": "def", "name": "crt1", "type": "'a => nat", "prop": "crt1 x = (x::nat)"}),
+        ("corpus:retyped-arg", {"ty": "def", "name": "crt2", "type": "bool => nat => nat", "prop": "crt2 b n = (if (n::bool) then (b::nat) else 0)"}),
         ("corpus:self-ref", {"ty": "def", "name": "cbad", "type": "bool", "prop": "cbad <--> ~cbad"}),
         ("corpus:self-ref", {"ty": "def", "name": "cbad2", "type": "bool", "prop": "cbad2 <--> (cbad2 --> (!p::bool. p))"}),
         ("corpus:extra-tvar", {"ty": "def", "name": "c2", "type": "bool", "prop": "c2 <--> (!x::'a. !y::'a. x = y)"}),
@@ -2277,7 +2295,9 @@ def run(ctx):
         "looping / unknown / repeated attributes; rejected items through both round trips. Added: definitions with compound arguments whose "
         "variables are as many as the arguments (c (x = x) = x); a chain of 3-4 user theories in a scratch directory re-loaded after an edit of "
         "the first one (4 / 20 rounds). Added: HISTORIES - a definitional item (def, def.ind, def.pred, type.ind) after an item of the same file "
-        "or of an imported library theory that introduced the same constant at exactly the same type; valid two-item histories.")
+        "or of an imported library theory that introduced the same constant at exactly the same type; valid two-item histories. Added: "
+        "RE-TYPED ARGUMENTS - a rhs occurrence with the name of an argument and an explicit annotation of another type (a variable is a "
+        "(name, type) pair; ~5% of the generated definitions and two corpus items).")
     ok = ctx.lean_props(["Holpy.C11.Props", "Holpy.C11.Props2"], exes=[EXE])
     if ctx.tier == "thorough" and ok:
         ctx.lean_check_modules(["Holpy.C11.Props", "Holpy.C11.Props2"])
@@ -2415,7 +2435,10 @@ MANIFEST = {
             "whose constant already exists (same file or imported theory, same type) is a violation (the constant must be new); for histories of "
             "def items the real loader accepting every item is compared with the model's `accepted` (the freshness condition of "
             "defs_list_gives_DefsHold), and when two definitions of one constant were both installed the real checker is asked for `theorem; theorem; "
-            "symmetric; transitive` - a proved t1 = t2 (e.g. |- true <--> false) is reported with the history as replay.",
+            "symmetric; transitive` - a proved t1 = t2 (e.g. |- true <--> false) is reported with the history as replay. RE-TYPED ARGUMENTS: "
+            "generated (and two corpus) definitions whose rhs mentions the NAME of an argument under an explicit annotation of another type, "
+            "e.g. c x = (x::nat) for c :: 'a => nat; an accepted one is reported by the typed-variable oracle "
+            "(not-a-definition:free-variable-on-rhs) and by the finite-model search (non-conservative).",
     "note": "Trusted: Lean kernel, axioms propext/Classical.choice/Quot.sound; the parser/printer (C07/C08) whose output is the object of the side "
             "conditions; the hand model's fidelity is as good as the generated items exercise it. A rejected library item is not a violation (the "
             "property does not say library items are accepted): it is counted and reported as a stream that no longer checks. For overloaded constants "
